@@ -130,6 +130,8 @@ class World {
 
   // H2: called for every message at the top of bus_dispatch, in processing order
   std::function<void(int client, DBusConnection *conn, DBusMessage *msg)> on_dispatch;
+  // H2c: a reply slot was expired by the bus (caller, callee as client indices, -1 unknown)
+  std::function<void(int caller, int callee, uint32_t serial)> on_reply_expired;
   int client_of_connection(DBusConnection *c);
   std::map<simk::End *, int> srv_to_client;
   std::set<DBusConnection *> live_conns;            // adopted and not yet disconnected
